@@ -612,7 +612,10 @@ def _run_task(task, seed):
     rec = {"scenario": name, "params": params, "real_t": real_t, "failures": [], "n_claims": 0, "n_trivial": 0, "sample": None, "claim_keys": []}
     t0 = time.time()
     try:
-        fn(ctx, **params)
+        # every scenario runs under path exploration: a data-dependent branch of the real code on symbolic data
+        # (bool()/int() of a term) forks the scenario instead of aborting it
+        paths = explore(ctx, lambda: fn(ctx, **params), max_paths=64, tag="scenario-path")
+        rec["paths"] = len(paths)
     except Exception as e:
         ctx.disable_pruning()
         rec["error"] = f"{type(e).__name__}: {e}"
@@ -625,8 +628,9 @@ def _run_task(task, seed):
     rec["claim_keys"] = [c.name for c in ctx.claims if (not c.trivial) or c.compound]
     rec["n_by_normal_form"] = sum(1 for c in ctx.claims if c.trivial and c.compound)
     # vacuity guard: the assumptions of the scenario must be satisfiable
-    if ctx.hyps and not rec.get("error"):
-        r = smt.check_sat(ctx.hyps, timeout_ms=20000, tag="vacuity:assumptions_satisfiable", want_model=False)
+    vh = getattr(ctx, "path_hyps", None) or ctx.hyps
+    if vh and not rec.get("error"):
+        r = smt.check_sat(vh, timeout_ms=20000, tag="vacuity:assumptions_satisfiable", want_model=False)
         if r.status == "unsat":
             rec["error"] = "assumptions are contradictory (vacuous scenario)"
     for c in ctx.claims:
@@ -740,6 +744,7 @@ def explore(ctx, fn, max_paths=64, tag="path"):
             ret = fn()
         finally:
             S.HOOKS.decide_bool, S.HOOKS.decide_int = old
+            ctx.path_hyps = list(ctx.hyps)  # assumptions + path condition of the path just finished (vacuity guard)
             ctx.hyps[:] = base_hyps
         results.append((tuple(state["taken"]), ret))
     return results
